@@ -83,6 +83,9 @@ def run_case(case):
         return derived_case(case)
     if case.get("op") == "enumtable":
         return enum_table_case(case)
+    if case.get("op") == "history":
+        res = _history_shard(case["kind"])
+        return [(s_, v["msg"]) for s_, v in res.violations.items()]
     classes = response_classes()
     if case["cls"] not in classes:
         return [("C06:response-class-missing", "%s is no longer a response of any command" % case["cls"])]
@@ -472,6 +475,56 @@ def _enum_shard(_):
     return res
 
 
+def _history_shard(kind):
+    """Runs in a process of its own.  The program has used the generic base classes first ("base-first": a proprietary
+    bitmap query answered through dali.command.BitmapResponse itself, plain Response / NumericResponse objects), or
+    has derived its own response classes from the library's ("user-subclass": a vendor variant with bits moved);
+    afterwards every response class attached to a command must interpret every outcome as before."""
+    command, frame, exc = _load()
+    res = Result()
+    case0 = {"op": "history", "kind": kind}
+    try:
+        if kind == "base-first":
+            for cls in (command.BitmapResponse, command.Response, command.NumericResponse, command.NumericResponseMask,
+                        command.YesNoResponse):
+                for fr in (frame.BackwardFrame(0x42), frame.BackwardFrame(0xFF), frame.BackwardFrameError(0x42), None):
+                    r = cls(fr)
+                    for fn in (lambda: r.value, lambda: r.status, lambda: str(r), lambda: repr(r), lambda: r.error):
+                        try:
+                            fn()
+                        except Exception:  # noqa - whatever the base classes do with it is not judged here
+                            pass
+        else:
+            for key, (r_cls, users) in response_classes().items():
+                if kind_of(r_cls) == "bitmap":
+                    names = list(r_cls.bits)
+                    moved = names[1:] + names[:1]            # every name one position lower, bit 0's name on top
+                    sub = type("Vendor" + r_cls.__name__, (r_cls,), {"bits": moved})
+                    v = sub(frame.BackwardFrame(0x81))
+                    for i, b in enumerate(moved):
+                        if b and getattr(v, mangle(b)) is not bool((0x81 >> i) & 1):
+                            res.violation("C06:user-subclass-bits:" + r_cls.__name__, case0,
+                                          "a subclass of %s declaring its own bits reads .%s from the wrong bit" % (r_cls.__name__, mangle(b)))
+                            break
+                elif kind_of(r_cls) in ("numeric", "numeric-mask", "enum", "yesno"):
+                    type("Vendor" + r_cls.__name__, (r_cls,), {"vendor": True})(frame.BackwardFrame(3))
+    except Exception as e:  # noqa
+        res.violation("C06:history-setup-raised:%s:%s" % (kind, type(e).__name__), case0, repr(e))
+        return res
+    n = 0
+    for key, (r_cls, users) in response_classes().items():
+        for oc in [None] + [("ok", v) for v in (0, 1, 2, 4, 0x42, 0x55, 0x80, 0x81, 0xAA, 0xFE, 0xFF)] + [("err", 0x42)]:
+            case = {"cls": key, "outcome": list(oc) if oc else None}
+            n += 1
+            for sig, msg in run_case(case):
+                res.violation(sig + ":after-" + kind, dict(case, history=kind), msg + " [after: %s]" % kind)
+    res.count(n)
+    res.nontrivial(n=n)
+    res.label("history:" + kind, n)
+    res.sample(case0, cls="history " + kind)
+    return res
+
+
 def _assoc_shard(_):
     res = Result()
     res.exhaustive = True
@@ -524,4 +577,5 @@ def _shard(arg):
 def run(ctx):
     names = list(response_classes())
     ctx.pmap(_shard, names + [None, "derived", "enumtable"])
+    ctx.pmap(_history_shard, ["base-first", "user-subclass"], fresh=True)
     ctx.result.extra["response_classes"] = len(names)
